@@ -11,7 +11,7 @@ SPEC_PART = dict(
              "cpc: the Huffman / unary / permutation tables cannot be re-derived from a specification; their mutual "
              "consistency is C11's subject"],
     assumptions=[],
-    covers="cpc: the independent layout decoder recovers (lg_k, first interesting column, seed hash, HIP registers or merged, "
+    covers="cpc (PARTIAL: framing only. The independent decoder locates the preamble fields and the two compressed streams as OPAQUE word lists; it does not decompress them, so it does not recover the window bytes, the surprising values or the bit matrix, and no theorem relates the streams' content to the sketch. What ties the content is C11's twin run, not this part). Proved: the independent layout decoder recovers (lg_k, first interesting column, seed hash, HIP registers or merged, "
            "coupon count, number of surprising values, both stream word lists) from the modelled framing of serialize() for every "
            "header, register pattern and pair of streams (c12_cpc_writer_conforms); the framing is literally the specification's "
            "encoding (c12_cpc_writer_is_spec_encoding); make_preamble_ints equals the format's fixed table on every reachable flag "
